@@ -49,6 +49,10 @@ def families(tier):
         ("ladders-bfs", lambda: ({**enum2d.ladder(K, gap=g), "ladder": K, "depth": 3} for K in range(3, 7) for g in (0, 1)), 1),
         ("ladders-derivations", lambda: ({**enum2d.ladder(K, lengths=[1 + (i % 2) for i in range(K)], gap=g), "ladder": K, "depth": 1, "ops": ["without_pseudoknots", "without_isolated", "str", "dot_bracket"]}
                                          for K in range(7, (13 if q else 17)) for g in (0, 1)), 1),
+        # derived objects as receivers: every chord diagram of 3-4 stems of lengths {1,2} (isolated pairs crossing longer stems - removing them changes the
+        # levels of what remains), short histories over the derivations and the answers that depend on the level assignment
+        ("D-derivations", lambda: ({**c, "depth": 2 if q else 3, "ops": ["without_isolated", "without_pseudoknots", "dot_bracket", "elements"] if not q else ["without_isolated", "without_pseudoknots", "dot_bracket"]}
+                                   for c in enum2d.D(4, kmin=3, gapvals=(0,) if q else (0, 1))), 1),
     ]
 
 
